@@ -148,7 +148,8 @@ def r3_identity(cx):
         if blk.get("cleanup"):
             continue
         for s in blk["s"]:
-            if s["k"] == "assign" and s["rv"]["k"] == "agg" and s["rv"].get("adt", "").endswith("Result") and s["rv"].get("variant") == "Ok" and s["lhs"]["l"] == 0:
+            if s["k"] == "assign" and s["rv"]["k"] == "agg" and s["rv"].get("adt", "").endswith("Result") and s["rv"].get("variant") == "Ok" and not s["lhs"].get("p") \
+                    and (s["lhs"]["l"] == 0 or 0 in b.whole_copies({s["lhs"]["l"]})):      # (directly, or as the result of an inlined helper)
                 oks.append((i, s["rv"]["fields"][0]))
     src = b.calls(r"FileSource::open::<")
     good = bool(oks) and bool(src)
@@ -258,7 +259,34 @@ def r7_missing_survives_every_conversion(cx):
         raise AnchorLost("conversions of MayMissPack: %d" % n)
 
 
+def r8_pack_table_is_searched_as_it_is_stored(cx):
+    """the pack infos of a manifest are kept in manifest order (`add_pack` takes packs in any order, with ids the caller
+    chooses); nothing sorts them, so a declared pack is found only by looking at every record -- a binary search on that
+    table answers "unknown pack" for records that are out of order"""
+    F = cx.F
+    bad = []
+    n = 0
+    for f in F.live_fns:
+        if "blocks" not in f or not re.search(r"reader::manifest_pack::|reader::jubako::", f["name"]):
+            continue
+        b = None
+        for i, blk in enumerate(f["blocks"]):
+            t = blk["t"]
+            if blk.get("cleanup") or t["k"] != "call":
+                continue
+            if call_is(t, r"binary_search(_by|_by_key)?(::<.*>)?$", r"partition_point(::<.*>)?$"):
+                b = b or F.body(f)
+                if ("field", "pack_infos") in b.origins(t["args"][0]):
+                    bad.append((f, t.get("ln")))
+            if call_is(t, r"Iterator>::(find|position|find_map)::<") or call_is(t, r"Iterator>::next$"):
+                n += 1
+    for f, ln in bad:
+        cx.ob("R8", "R8/%s/binary-search-on-the-pack-table" % re.sub(r"<.*?>", "", f["name"]).split("::")[-1], False, f, "binary search over pack_infos at line %s: the table is not sorted" % ln, ln=ln)
+    cx.ob("R8", "R8/pack-table-searched-linearly", not bad and n >= 2, "(reader::manifest_pack)", "no binary search over the manifest's pack table (%d linear searches / iterations)" % n)
+
+
 RULES = [
+    ("R8", r8_pack_table_is_searched_as_it_is_stored, 1),
     ("R7", r7_missing_survives_every_conversion, 4),
     ("R6", r6_only_found_packs_are_remembered, 1),
     ("R1", r1_three_way, 8),
